@@ -4,7 +4,7 @@
 use crate::cond::*;
 use crate::out::{hx, unhx, Out};
 use crate::prng::Rng;
-use chia_bls::{aggregate, sign, BlsCache, PublicKey, SecretKey, Signature};
+use chia_bls::{aggregate, sign, sign_raw, BlsCache, PublicKey, SecretKey, Signature};
 use chia_consensus::conditions::{parse_spends, EmptyVisitor};
 use chia_consensus::consensus_constants::TEST_CONSTANTS;
 use chia_consensus::flags::ConsensusFlags;
@@ -39,6 +39,37 @@ fn prescribed(op: u8, msg: &[u8], parent: &[u8], ph: &[u8], amount: u64, konst: 
     m
 }
 
+
+
+/// index of the malformed key in `truth` / `variants` entries
+const MAL: usize = usize::MAX;
+
+/// the order r of G1, minus one (big endian); `scalar_multiply` reduces modulo r
+const GROUP_ORDER_MINUS_ONE: [u8; 32] = [
+    0x73, 0xed, 0xa7, 0x53, 0x29, 0x9d, 0x7d, 0x48, 0x33, 0x39, 0xd8, 0x08, 0x09, 0xa1, 0xd8, 0x05,
+    0x53, 0xbd, 0xa4, 0x02, 0xff, 0xfe, 0x5b, 0xfe, 0xff, 0xff, 0xff, 0xff, 0x00, 0x00, 0x00, 0x00,
+];
+
+/// a public key that is a canonical encoding of a point ON the curve but OUTSIDE the group G1:
+/// P = sk·G + T with T of cofactor order, together with sk.  Pairings cannot tell P from sk·G, so
+/// sk·H(P ‖ text) "verifies" wherever the subgroup check is skipped.  The rules reject such a key.
+fn malformed_key() -> (Vec<u8>, SecretKey) {
+    let mut candidate = [0u8; 48]; candidate[0] = 0x80;
+    let mut p0 = None;
+    for i in 1..=255u8 { candidate[47] = i;
+        if let Ok(p) = PublicKey::from_bytes_unchecked(&candidate) { if !p.is_valid() { p0 = Some(p); break; } } }
+    let p0 = p0.expect("curve point outside G1");
+    let mut t = p0.clone(); t.scalar_multiply(&GROUP_ORDER_MINUS_ONE); t += &p0;   // r·P0
+    let sk = SecretKey::from_seed(&[9u8; 32]);
+    let mut p = sk.public_key(); p += &t;
+    assert!(!p.is_inf() && !p.is_valid());
+    (p.to_bytes().to_vec(), sk)
+}
+
+fn key_bytes(sks: &[SecretKey], mal: &(Vec<u8>, SecretKey), ki: usize) -> Vec<u8> { if ki == MAL { mal.0.clone() } else { sks[ki].public_key().to_bytes().to_vec() } }
+fn sig_for(sks: &[SecretKey], mal: &(Vec<u8>, SecretKey), ki: usize, text: &[u8]) -> Signature {
+    if ki == MAL { let mut aug = mal.0.clone(); aug.extend_from_slice(text); sign_raw(&mal.1, aug) } else { sign(&sks[ki], text) }
+}
 
 struct Verdicts { plain: bool, cold: bool, warm: bool, mempool: bool }
 
@@ -75,6 +106,7 @@ pub fn run(o: &mut Out, seed: u64, thorough: bool, replay: Option<Vec<String>>) 
     let mut r = Rng::new(seed ^ 0xc05);
     let sks: Vec<SecretKey> = (1..5u8).map(|i| SecretKey::from_seed(&[i; 32])).collect();
     let pool = pools();
+    let mal = malformed_key();
     let amounts: [u64; 14] = [0, 1, 0x7f, 0x80, 0xff, 0x7fff, 0x8000, 0x7f_ffff, 0x80_0000, 0x7fff_ffff, 0x8000_0000, 0x7fff_ffff_ffff_ffff, 0x8000_0000_0000_0000, u64::MAX];
     // make_aggsig_final_message on every opcode x amount class
     for op in [43u8, 44, 45, 46, 47, 48, 49, 50, 51] { for amt in amounts { for msg in [&b""[..], b"m", &[0x80u8; 32]] {
@@ -98,7 +130,11 @@ pub fn run(o: &mut Out, seed: u64, thorough: bool, replay: Option<Vec<String>>) 
                 let msg = if msg.len() > 1024 { vec![1] } else { msg };
                 conds_raw.push((op, ki, msg));
             }
-            let mut conds: Vec<T> = conds_raw.iter().map(|(op, ki, msg)| pair(at(&[*op]), list(vec![at(&sks[*ki].public_key().to_bytes()), at(msg)], nil()))).collect();
+            // sometimes the same condition twice (the signature must then cover the pair twice), sometimes a key
+            // on the curve but outside G1 together with the signature that pairings alone would accept
+            if !conds_raw.is_empty() && r.chance(1, 5) { let c = conds_raw[r.below(conds_raw.len() as u64) as usize].clone(); conds_raw.push(c); }
+            if r.chance(1, 12) { let op = *r.pick(&[43u8, 44, 45, 46, 47, 48, 49, 50]); conds_raw.push((op, MAL, b"mal".to_vec())); }
+            let mut conds: Vec<T> = conds_raw.iter().map(|(op, ki, msg)| pair(at(&[*op]), list(vec![at(&key_bytes(&sks, &mal, *ki)), at(msg)], nil()))).collect();
             if r.chance(1, 5) { conds.push(pair(at(&[1]), nil())); }
             if r.chance(1, 30) { conds.push(pair(at(&[49]), list(vec![at(&pool.bad_pks[0]), at(b"x")], nil()))); } // infinity key
             let puzzle = pair(at(&[1]), list(conds.clone(), nil()));
@@ -121,7 +157,7 @@ pub fn run(o: &mut Out, seed: u64, thorough: bool, replay: Option<Vec<String>>) 
             let mut v = base.clone(); v.remove(i); variants.push(v);                                   // missing pair
             let mut v = base.clone(); v.push(base[i].clone()); variants.push(v);                       // pair signed twice
             let mut v = base.clone(); let l = v[i].1.len(); if l > 0 { let j = r.below(l as u64) as usize; v[i].1[j] ^= 1 << r.below(8); variants.push(v); } // one bit of the text
-            let mut v = base.clone(); v[i].0 = (v[i].0 + 1) % sks.len(); variants.push(v);               // other key
+            let mut v = base.clone(); v[i].0 = if v[i].0 == MAL { 0 } else { (v[i].0 + 1) % sks.len() }; variants.push(v);               // other key
             let (ki, op, msg, _) = &truth[i];
             if *op != 49 {
                 // wrong domain constant (another opcode's), altered coin attribute
@@ -136,8 +172,8 @@ pub fn run(o: &mut Out, seed: u64, thorough: bool, replay: Option<Vec<String>>) 
         }
         variants.push(vec![(0, b"unrelated".to_vec())]);
         for (vi, v) in variants.iter().enumerate() {
-            let sig = aggregate(v.iter().map(|(ki, text)| sign(&sks[*ki], text)));
-            let signed: Vec<(Vec<u8>, Vec<u8>)> = v.iter().map(|(ki, text)| (sks[*ki].public_key().to_bytes().to_vec(), text.clone())).collect();
+            let sig = aggregate(v.iter().map(|(ki, text)| sig_for(&sks, &mal, *ki, text)));
+            let signed: Vec<(Vec<u8>, Vec<u8>)> = v.iter().map(|(ki, text)| (key_bytes(&sks, &mal, *ki), text.clone())).collect();
             let vd = run_all(flags, &tree, &spends, &sig, &warm);
             o.case(&format!("C05 sig {} {} {} {}", flags, pk_s, pairs_s(&signed), hex::encode(to_bytes(&tree))),
                    &format!("plain={} cold={} warm={} mempool={}", ok(vd.plain), ok(vd.cold), ok(vd.warm), ok(vd.mempool)));
@@ -175,12 +211,14 @@ fn replay_line(o: &mut Out, l: &str) {
     }
     // sig line: rebuild the signature from the signed-pairs field using the key pool
     let sks: Vec<SecretKey> = (1..5u8).map(|i| SecretKey::from_seed(&[i; 32])).collect();
+    let mal = malformed_key();
     let flags: u32 = t[2].parse().unwrap();
     let bytes = hex::decode(t[5]).unwrap();
     let mut a = Allocator::new();
     let n = node_from_bytes(&mut a, &bytes).unwrap();
     let sig = if t[4] == "!junk" || t[4] == "-" { Signature::default() } else {
         aggregate(t[4].split(',').map(|e| { let p: Vec<&str> = e.split(':').collect(); let pk = hex::decode(p[0]).unwrap();
+            if pk == mal.0 { let mut aug = mal.0.clone(); aug.extend_from_slice(&unhx(p[1])); return sign_raw(&mal.1, aug); }
             let sk = sks.iter().find(|s| s.public_key().to_bytes().to_vec() == pk).expect("key from the pool"); sign(sk, unhx(p[1])) })) };
     let f = ConsensusFlags::from_bits_retain(flags);
     let plain = parse_spends::<EmptyVisitor>(&a, n, 11_000_000_000, 0, f, &sig, None, &TEST_CONSTANTS).is_ok();
